@@ -159,6 +159,9 @@ func fillTimePeriod(t *rapid.T, v reflect.Value, o Opt, path string) {
 	hi := 2
 	if o.RelativePeriods {
 		hi = 4
+		if o.Extremes {
+			hi = 5
+		}
 	}
 	tp := model.TimePeriodType{}
 	switch rapid.IntRange(0, hi).Draw(t, path+"/period") {
@@ -175,6 +178,12 @@ func fillTimePeriod(t *rapid.T, v reflect.Value, o Opt, path string) {
 		// the wire it is re-expressed as a (possibly negative) remaining duration
 		off := rapid.SampledFrom([]time.Duration{-3 * 7 * 24 * time.Hour, -time.Hour, -90 * time.Second, 2 * time.Minute, time.Hour, 36 * time.Hour}).Draw(t, path+".absend")
 		tp.EndTime = model.NewAbsoluteOrRelativeTimeTypeFromTime(time.Now().Add(off))
+	case 5:
+		// texts the stack cannot convert are passed on as they are
+		tp.EndTime = model.NewAbsoluteOrRelativeTimeType(rapid.SampledFrom([]string{"", "never", "2035-01-01T12:00:00+02:00", "P"}).Draw(t, path+".oddend"))
+		if rapid.Bool().Draw(t, path+".oddend.start") {
+			tp.StartTime = model.NewAbsoluteOrRelativeTimeType(rapid.SampledFrom(datetimes).Draw(t, path+".start"))
+		}
 	}
 	v.Set(reflect.ValueOf(tp))
 }
